@@ -37,8 +37,8 @@ type scenario struct {
 	Ins        []gen.Inst        `json:"instances"`
 	RF         int               `json:"rf"`
 	Keys       []uint32          `json:"keys"`
-	Outcomes   map[string]string `json:"outcomes"` // addr -> ok | client | server
-	Prio       []string          `json:"priority"` // completion order: highest-priority parked call is released first
+	Outcomes   map[string]string `json:"outcomes"`  // addr -> ok | client | server
+	Prio       []string          `json:"priority"`  // completion order: highest-priority parked call is released first
 	CancelAt   int               `json:"cancel_at"` // -1: before the call; k: after the k-th completion; 99: never
 	Workers    int               `json:"workers"`   // 0: plain goroutines; n: pool of n workers as custom spawner
 	DefaultCls bool              `json:"default_classifier"`
